@@ -192,7 +192,11 @@ class time_zone {
   template <typename D>
   bool prev_transition(const time_point<D>& tp,
                        civil_transition* trans) const {
-    return prev_transition(detail::split_seconds(tp).first, trans);
+    // A transition at the whole second at or below tp is strictly before
+    // tp when tp has a sub-second part, so round up rather than down.
+    auto sec = detail::split_seconds(tp).first;
+    if (sec < tp && sec != time_point<seconds>::max()) sec += seconds(1);
+    return prev_transition(sec, trans);
   }
 
   // version() and description() provide additional information about the
